@@ -365,6 +365,11 @@ def domain(name, ctx, default, required):
         Lm = math.nextafter(L, 0)
         return [None, [[0.0], [0.0]], [[0.0, L]], [[L]], [[0.0], [L]], [[0.0, Lm]], [[-1.0]], [[math.nan]], [[L + 1]],
                 [[0.0, 0.0]], [[Lm, 0.0]], [], [[]], "x", [[0.5], [0.5], [0.5]], [0.0, L], [[math.inf]]]
+    if name == "node_mapping":
+        # one entry per node of `other` (the objects used here have as many nodes as self)
+        return [list(range(n)), [-1] * n, [n] * n, [n - 1] * n, [n + 1] * n, [HUGE] * n, [-2] * n, [0] * n,
+                [-1] * (n - 1) + [n] if n else [], [n] + [-1] * (n - 1) if n else [], [], [0], None, "x",
+                np.full(n, 0.5)]
     if name in IDLIST_LIKE:
         full = list(range(n))
         return [S[:2] if S else [], [], [0], [0, 0], [n], [-1], full, [HUGE], np.array([0.5, 1.5]),
@@ -817,6 +822,15 @@ def run_shard(spec):
             acc.ev(1, nontrivial=st != "bind")
             acc.count("transitions")
             acc.count("outcome_" + st)
+            if st == "ok" and args and os.environ.get("VERIF_C09_ACCEPTS"):
+                for k_, v_ in args.items():
+                    if k_ in NODE_LIKE | SITE_LIKE or k_ in ("node_mapping", "nodes", "samples", "within", "ancestors", "site_ids"):
+                        nn = ctx["sites"] if k_ in SITE_LIKE or k_ == "site_ids" else ctx["n"]
+                        vals = v_ if isinstance(v_, list) else [v_]
+                        for x_ in vals:
+                            if isinstance(x_, int) and not isinstance(x_, bool) and (x_ >= nn or x_ < -1):
+                                tag = "n" if x_ == nn else ("n+1" if x_ == nn + 1 else ("neg" if x_ < 0 else "huge"))
+                                acc.count(f"ACCEPTS {cls}.{m}({k_}={tag}) on {objname}")
             if i % 997 == 0:
                 acc.sample({"obj": objname, "method": m, "args": case["args"], "outcome": st})
         acc.count("states", 1)
